@@ -594,6 +594,54 @@ def check_case(case, ctx: Ctx) -> CaseResult:
             'C34:NameExpander-raises:' + exc_sig(exc),
             f'{type(exc).__name__}: {exc}\nheading {heading!r}\n{ptxt}'))
 
+    # ---- one expander, several headings (as WorkflowConfig uses it): the
+    # same stem with the fixed value on different parameters
+    pn = sorted(pp for pp in params if params[pp]['kind'] != 'mixed')
+    shared = None
+    for i, p1 in enumerate(pn):
+        for p2 in pn[i + 1:]:
+            common = [v for v in params[p1]['vals']
+                      if str(v) in {str(w) for w in params[p2]['vals']}]
+            if common and shared is None:
+                shared = (p1, p2, common[0])
+    if shared is not None:
+        classes.append('one-expander-several-headings')
+        p1, p2, v = shared
+        v2 = next(w for w in params[p2]['vals'] if str(w) == str(v))
+        atoms2 = [
+            {'segs': ['foo', [[p1, '=', v], [p2, '', None]]]},
+            {'segs': ['foo', [[p1, '', None], [p2, '=', v2]]]},
+            {'segs': ['foo', [[p1, '=', v], [p2, '', None]]]},
+        ]
+        try:
+            ne = NameExpander(cp)
+            for a in atoms2:
+                vps = variable_params([a])
+                want2 = []
+                for combo in itertools.product(
+                        *[params[q]['vals'] for q in vps]):
+                    inst = instantiate_atom(
+                        a, params, tmpls, dict(zip(vps, combo)))
+                    want2.append((inst['n'], tuple(sorted(
+                        (k, str(x)) for k, x in inst['values'].items()))))
+                got2 = [(n, tuple(sorted((k, str(x)) for k, x in d.items())))
+                        for n, d in ne.expand(atom_text(a))]
+                if Counter(got2) != Counter(want2):
+                    viol.append(Violation(
+                        'C34:NameExpander-differs:heading-after-other-'
+                        'headings-on-one-expander',
+                        f'{atom_text(a)!r} expanded after '
+                        f'{[atom_text(b) for b in atoms2[:atoms2.index(a)]]} '
+                        f'on the same NameExpander: got {sorted(got2)}, '
+                        f'model {sorted(want2)}\n{ptxt}'))
+                    break
+        except RecursionError:
+            raise
+        except Exception as exc:
+            viol.append(Violation(
+                'C34:NameExpander-raises:' + exc_sig(exc),
+                f'{type(exc).__name__}: {exc} (shared expander)\n{ptxt}'))
+
     # ---- p=value on a mixed list of digit and non-digit strings
     for pname, p in params.items():
         if p['kind'] != 'mixed':
